@@ -656,7 +656,7 @@ def explain(case, tags, clause):
     if name == "unflatten":
         if clause == "dflt":
             return "unflatten:default-dropped"
-        if clause == "error:ERR:TypeError" and "src-est" in tags and "src-empty" in tags:
+        if clause == "error:ERR:TypeError" and "src-est" in tags and "unflatten-entry-not-tuple" in tags:
             return "unflatten:estimated-empty:TypeError"
     if name == "split":
         if op.get("rel") and clause == f"active@{k + 1}":
